@@ -127,6 +127,27 @@ Definition eparse (ip0 : list N) (fpreg : option N) (allow_add_sp : bool) : pres
     end
   end.
 
+(* x86_64/pe.rs relative_jump_target (fix for S23): the target RVA of a `jmp rel8` / `jmp rel32` at the start of the
+   bytes (u32 wrapping arithmetic), and whether it stays strictly inside the function: such a jump is an ordinary
+   branch, not the tail call that ends an epilog *)
+Definition rel_jump_target (bytes : list N) (address : N) : option N :=
+  match bytes with
+  | b0 :: rel :: t =>
+    if b0 =? 235 then Some ((address + 2 + (if rel <? 128 then rel else rel + (W32 - 256))) mod W32)
+    else if b0 =? 233 then
+      match t with
+      | b1 :: b2 :: b3 :: _ => Some ((address + 5 + (rel + 256 * b1 + 65536 * b2 + 16777216 * b3)) mod W32)
+      | _ => None
+      end
+    else None
+  | _ => None
+  end.
+Definition local_jump (bytes : list N) (address fbegin fend : N) : bool :=
+  match rel_jump_target bytes address with
+  | Some tg => (fbegin <? tg) && (tg <? fend)
+  | None => false
+  end.
+
 (* FUNCTION_EPILOG_LIMIT = 12; fuel = length of the byte string (every instruction consumes one) *)
 Fixpoint eparse_loop (fuel : nat) (ip : list N) (fpreg : option N) (acc : list einsn) (n : nat)
   : option (list einsn) :=
@@ -361,7 +382,8 @@ Definition pe_step_raw (checked : bool) (pe : pe_data) (address : N) (first : bo
                   let n := N.to_nat (rt_end f - address) in
                   if Nat.ltb (length rest) n then Some (CbErr rg, pe_eff)      (* .get(..bytes): fix for S11 *)
                   else
-                    match eparse_sequence (firstn n rest) (ui_fpreg u0) with
+                    match (if local_jump (firstn n rest) address (rt_begin f) (rt_end f) then None
+                           else eparse_sequence (firstn n rest) (ui_fpreg u0)) with
                     | None => None
                     | Some insns =>
                       match rule_for_sequence (map oop_of_einsn insns) with
@@ -498,7 +520,9 @@ Definition epilog_at (pe : pe_data) (f : rtfunc) (u0 : uinfo) (address : N) : op
   match pe_text pe with
   | Some (lo, hi, bytes) =>
     if (lo <=? address) && (address <? hi) && (address <=? rt_end f) then
-      eparse_sequence (firstn (N.to_nat (rt_end f - address)) (skipn (N.to_nat (address - lo)) bytes)) (ui_fpreg u0)
+      let code := firstn (N.to_nat (rt_end f - address)) (skipn (N.to_nat (address - lo)) bytes) in
+      if local_jump code address (rt_begin f) (rt_end f) then None       (* a branch inside the function is no epilog *)
+      else eparse_sequence code (ui_fpreg u0)
     else None
   | None => None
   end.
